@@ -30,6 +30,28 @@ type c09Case struct {
 	Skew         int    `json:"skew"`
 	WinPos       int    `json:"window_position"`    // which window code the wrong codes are derived from (-skew..skew)
 	Spelling     int    `json:"spelling,omitempty"` // how the submitted wrong codes are written, see c09Spellings
+	Sep          string `json:"separator,omitempty"`   // grouped spelling: this separator is inserted ...
+	SepAt        []int  `json:"separator_at,omitempty"` // ... before each of these digit indexes (ascending; len(code) = after the last digit)
+}
+
+// c09Group writes a code the way authenticator apps display it ("755 224", "755-224", "123 456 789").
+func c09Group(code, sep string, at []int) string {
+	if sep == "" || len(at) == 0 {
+		return code
+	}
+	rs := []rune(code)
+	var b strings.Builder
+	k := 0
+	for i := 0; i <= len(rs); i++ {
+		for k < len(at) && at[k] == i {
+			b.WriteString(sep)
+			k++
+		}
+		if i < len(rs) {
+			b.WriteRune(rs[i])
+		}
+	}
+	return b.String()
 }
 
 // c09Spellings: the wrong codes are also submitted in other digit spellings (one rune per digit) - a path that
@@ -194,7 +216,7 @@ func nonInterference(c c09Case, st *c09Stats) (obs, bad string, calls int) {
 		if w == "" {
 			continue
 		}
-		w = c09Spell(w, c.Spelling, j)
+		w = c09Group(c09Spell(w, c.Spelling, j), c.Sep, c.SepAt)
 		var verdict string
 		var tr []irt.Event
 		var pn string
@@ -332,6 +354,57 @@ func c09(r *ev.Run) {
 			}
 		}
 	}
+	// the same classes with the wrong codes written in groups, as authenticator apps display them: one separator
+	// before every digit index (and after the last digit), and the usual groupings in twos, threes and fours
+	var grouped int64
+	for _, e := range entries {
+		for _, d := range []int{6, 8, 9} {
+			var ats [][]int
+			for i := 0; i <= d; i++ {
+				ats = append(ats, []int{i})
+			}
+			for _, g := range []int{2, 3, 4} {
+				var at []int
+				for i := g; i < d; i += g {
+					at = append(at, i)
+				}
+				if len(at) > 1 {
+					ats = append(ats, at)
+				}
+			}
+			for si, sep := range []string{" ", "-", ".", "\u00a0", "\t"} {
+				for ai, at := range ats {
+					if !r.Thorough() && si > 1 && !(len(at) == 1 && at[0] == d/2) {
+						continue
+					}
+					s := (si + ai) % 2
+					ok, okd := false, false
+					for _, x := range e.skews {
+						ok = ok || x == s
+					}
+					for _, x := range e.digits {
+						okd = okd || x == d
+					}
+					if !ok {
+						s = 0
+					}
+					if !okd {
+						continue
+					}
+					c := c09Case{Entry: e.name, Digits: d, Algo: (si + ai + d) % 3, Skew: s, WinPos: s * (1 - 2*(ai%2)), AfterSuccess: ai%3 == 0, Sep: sep, SepAt: at}
+					obs, bad, n := nonInterference(c, st)
+					classes++
+					grouped++
+					calls += int64(n)
+					perEntry[e.name]++
+					if bad != "" {
+						r.Fail("non-interference", fmt.Sprintf("%s digits=%d skew=%d codes written in groups (separator %q before digit indexes %v): %s", e.name, d, s, sep, at, bad), c, "all wrong codes rejected with identical traces", obs+" "+bad)
+					}
+				}
+			}
+		}
+	}
+	r.Set("grouped_spelling_classes", grouped)
 	r.Eval(calls)
 	r.State(classes)
 	r.Transition(calls)
